@@ -472,7 +472,7 @@ theorem destPort_default (c : Ctx) (d : Destination) (h : d.port = none) :
 theorem evalRoutes_cons (re : Regex) (r : Route) (rs : List Route) (req : Request) :
     evalRoutes re (r :: rs) req = if r.match.eval re req then r.action.decision else evalRoutes re rs req := by
   unfold evalRoutes firstMatch
-  cases h : r.match.eval re req <;> simp [List.find?_cons, h]
+  cases h : r.match.eval re req <;> simp [h]
 
 theorem evalRoutes_append (re : Regex) (a b : List Route) (req : Request) :
     evalRoutes re (a ++ b) req =
